@@ -75,11 +75,11 @@ total order (`kf_units_dimensions` / `kr_units_dimensions`), for every stoichiom
 theorem reaction_roundtrip (parent us : Sys) (l : Val Empty) (s p : List (String × Int)) (vkf vkr : Val Empty)
     (hus : us.valid = true) (hl : LabelWF l) (hf : QtyEnvWF (kDim (sidesOrder s)) vkf) (hr : QtyEnvWF (kDim (sidesOrder p)) vkr) :
     reactionFromDict parent (reactionToDict (reactionObj us l s p vkf vkr)) =
-      .ok (reactionObj us l s p (reparseVal vkf) (reparseVal vkr)) := by
+      .ok (reactionObj us l (nz s) (nz p) (reparseVal vkf) (reparseVal vkr)) := by
   unfold reactionFromDict reactionToDict
   rw [reactionFields_eq]
   let g : Field → Val Empty := fun f =>
-    if f.param == "label" then l else if f.param == "stoichiometry" then .stoich s p
+    if f.param == "label" then l else if f.param == "stoichiometry" then .stoich (nz s) (nz p)
     else if f.param == "kf" then reparseVal vkf else reparseVal vkr
   have := generic_roundtrip DictKeys.reaction
     [⟨"label", "label", .label, some .null⟩, ⟨"stoichiometry", "stoichiometry", .stoich, none⟩,
@@ -92,14 +92,18 @@ theorem reaction_roundtrip (parent us : Sys) (l : Val Empty) (s p : List (String
       rcases hfm with rfl | rfl | rfl | rfl
       · exact readKind_label _ _ noWrite l hl
       · exact readKind_stoich _ _ noWrite s p
-      · exact readKind_qtyEnv_write' _ _ .kf _ noWrite vkf rfl hf.ok
-      · exact readKind_qtyEnv_write' _ _ .kr _ noWrite vkr rfl hr.ok)
+      · refine readKind_qtyEnv_write' _ _ .kf _ noWrite vkf ?_ hf.ok
+        show Except.ok (kDim (sidesOrder (nz s))) = _
+        rw [sidesOrder_nz]
+      · refine readKind_qtyEnv_write' _ _ .kr _ noWrite vkr ?_ hr.ok
+        show Except.ok (kDim (sidesOrder (nz p))) = _
+        rw [sidesOrder_nz])
   rw [this]
   rfl
 
 theorem reaction_reserialise (us : Sys) (l : Val Empty) (s p : List (String × Int)) (vkf vkr : Val Empty)
     (hf : QtyEnvWF (kDim (sidesOrder s)) vkf) (hr : QtyEnvWF (kDim (sidesOrder p)) vkr) :
-    reactionToDict (reactionObj us l s p (reparseVal vkf) (reparseVal vkr)) = reactionToDict (reactionObj us l s p vkf vkr) := by
+    reactionToDict (reactionObj us l (nz s) (nz p) (reparseVal vkf) (reparseVal vkr)) = reactionToDict (reactionObj us l s p vkf vkr) := by
   unfold reactionToDict
   rw [reactionFields_eq]
   refine toDictG_congr _ _ _ _ _ _ ?_ ?_
@@ -108,7 +112,8 @@ theorem reaction_reserialise (us : Sys) (l : Val Empty) (s p : List (String × I
   simp only [List.mem_cons, List.not_mem_nil, or_false] at hfm
   rcases hfm with rfl | rfl | rfl | rfl
   · rfl
-  · rfl
+  · show Json.eqn (nz (nz s)) (nz (nz p)) = Json.eqn (nz s) (nz p)
+    rw [nz_nz, nz_nz]
   · exact writeVal_reparse noWrite _ vkf hf
   · exact writeVal_reparse noWrite _ vkr hr
 
@@ -192,7 +197,7 @@ theorem reaction_reserialise_wf (c : L0) (h : ReactionWF c) : reactionToDict (rp
   obtain ⟨us, l, s, p, vkf, vkr, rfl, _, hl, hf, hr⟩ := h
   have e1 := reparseVal_qtyEnv (fun e : Empty => e) hf
   have e2 := reparseVal_qtyEnv (fun e : Empty => e) hr
-  have : rp0 (reactionObj us l s p vkf vkr) = reactionObj us l s p (reparseVal vkf) (reparseVal vkr) := by
+  have : rp0 (reactionObj us l s p vkf vkr) = reactionObj us l (nz s) (nz p) (reparseVal vkf) (reparseVal vkr) := by
     rcases hl with rfl | ⟨l', rfl, _⟩ <;>
       simp only [rp0, reparseObj, reactionObj, List.map_cons, List.map_nil, e1, e2] <;> rfl
   rw [this]
@@ -375,10 +380,17 @@ theorem network_roundtrip (parent : Sys) (base : Option String) (fs : FS) (o : L
   rw [this]
   have hl : ∀ l : List L0, (l.map rp0).map labelOf = l.map labelOf := by
     intro l; rw [List.map_map]; apply List.map_congr_left; intro c _; exact labelOf_reparseObj _ c
-  have hs : (rs.map rp0).flatMap sidesOf = rs.flatMap sidesOf := by
-    rw [List.flatMap_map]; congr 1; funext c; exact sidesOf_reparseObj _ c
+  have hval' : networkValid (sp.map labelOf) (rs.map labelOf) ((rs.map rp0).flatMap sidesOf) = true := by
+    unfold networkValid at hval ⊢
+    simp only [Bool.and_eq_true] at hval ⊢
+    refine ⟨hval.1, ?_⟩
+    apply List.all_eq_true.2
+    intro x hx
+    obtain ⟨c', hc', hxc⟩ := List.mem_flatMap.1 hx
+    obtain ⟨c, hc, rfl⟩ := List.mem_map.1 hc'
+    exact List.all_eq_true.1 hval.2 x (List.mem_flatMap.2 ⟨c, hc, sidesOf_reparseObj _ c x hxc⟩)
   show (if networkValid ((sp.map rp0).map labelOf) ((rs.map rp0).map labelOf) ((rs.map rp0).flatMap sidesOf) then _ else _) = _
-  rw [hl, hl, hs, hval]
+  rw [hl, hl, hval']
   rfl
 
 theorem network_reserialise (o : L1) (h : NetworkWF o) : networkToDict (rp1 o) = networkToDict o := by
@@ -903,6 +915,15 @@ theorem example_wf :
       subst hc
       exact ⟨_, _, _, _, _, rfl, by decide +kernel, by decide +kernel, rfl, by decide +kernel, rfl⟩⟩
   exact ⟨hs, hr, hn, hg, _, _, _, _, _, rfl, by decide +kernel, hn, .inr hg, by decide +kernel, rfl, by decide +kernel⟩
+
+/-- a reaction holding an explicit zero coefficient first (`Reaction([{"A": 0, "B": 2}, {"D": 1}])`) is well-formed; its
+equation is written without the zero entry and read back as `2 B -> D`, with the same rate-constant dimension -/
+theorem example_zero_coefficient :
+    ReactionWF (reactionObj ⟨"mm", "s", "mol"⟩ .none [("A", 0), ("B", 2)] [("D", 1)]
+      (.qty ⟨5, ⟨⟨"mm", "s", "mol"⟩, kDim 2⟩⟩) (.qty ⟨0, ⟨⟨"mm", "s", "mol"⟩, kDim 1⟩⟩)) ∧
+    nz [("A", 0), ("B", 2)] = [("B", 2)] ∧ sidesOrder (nz [("A", 0), ("B", 2)]) = 2 := by
+  refine ⟨⟨_, _, _, _, _, _, rfl, by decide +kernel, .inl rfl, .inl ⟨_, rfl, by decide +kernel, by decide +kernel⟩,
+    .inl ⟨_, rfl, by decide +kernel, by decide +kernel⟩⟩, by decide +kernel, by decide +kernel⟩
 
 /-! ## alias interchangeability, for every reader and every synonym the source accepts -/
 
